@@ -228,7 +228,7 @@ def check(ctx):
                 'the comment text does not reach TextBlock.__init__ unchanged')
 
     # ---- C19.every-line (b) + (c): bullet mode ALL puts the glyph in front of every line ----------------------------------------
-    # decided by interpreting the indenter (E6, the scenarios of C18) when that is possible, else on the shape of the ALL view
+    # decided by interpreting the indenter (E7, the scenarios of C18) when that is possible, else on the shape of the ALL view
     to_list = ind.methods.get('to_list')
     glyph_sem = _all_lines_start_with_glyph(ctx, ind)
     if glyph_sem is not None:
@@ -636,6 +636,12 @@ def _all_lines_start_with_glyph(ctx, ind: ClassInfo):
     seqs += _long_sequences(ind)
     bad: List[str] = []
     n_runs = 0
+    glyph = ''
+
+    def ok_line(out_: Any, src_: str) -> bool:
+        # the line starts with the glyph and still holds its text - or nothing but white space comes out for a line that
+        # is nothing but white space (that cannot be code either)
+        return isinstance(out_, str) and ((out_.startswith(glyph) and src_.strip() in out_) or (not out_.strip() and not src_.strip()))
     try:
         for ind_kind, n in (('SPACES', 0), ('SPACES', 4), ('TAB', 4)):
             for glyph in ('//', '-', '>>>>>'):
@@ -659,8 +665,8 @@ def _all_lines_start_with_glyph(ctx, ind: ClassInfo):
                         raise Undecided('to_list does not yield a list')
                     if len(got) != len(lines):
                         bad.append(f'{ind_kind.lower()} {n}, glyph {glyph!r}, lines {lines!r}: {len(got)} lines come out')
-                    elif not all(isinstance(g_, str) and g_.startswith(glyph) and lines[i].strip() in g_ for i, g_ in enumerate(got)):
-                        k = next(i for i, g_ in enumerate(got) if not (isinstance(g_, str) and g_.startswith(glyph) and lines[i].strip() in g_))
+                    elif not all(ok_line(g_, lines[i]) for i, g_ in enumerate(got)):
+                        k = next(i for i, g_ in enumerate(got) if not ok_line(g_, lines[i]))
                         bad.append(f'{ind_kind.lower()} {n}, glyph {glyph!r}, lines {lines!r}: line {k} is {got[k]!r} - it does not start '
                                    f'with the glyph (or has lost its text)')
     except Undecided:
